@@ -182,3 +182,12 @@ __CPROVER_requires(__CPROVER_is_fresh(self, sizeof(*self)) && g_seq == 0 && g_pe
 __CPROVER_assigns(g_seq, g_exc, g_pe_calls, self->m_event_processing)
 __CPROVER_ensures(!g_exc ==> g_pe_calls == 1)                                                                               /*@ob C09.entry-point-event-processed-once-after-the-entry */
 ;
+
+/* default member initialiser of history_impl::m_last_active_state_ids (MEMBERINIT rule): the memory starts at the initial states */
+#define MEMBER_INIT(m, v)   ARRAY_ASSIGN(self->m, v)
+#define MEMBER_INIT_ZERO(m) memset(self->m, 0, sizeof(self->m))
+void hist_construct(hist11_t* self)
+__CPROVER_requires(REGIONS_OK && __CPROVER_is_fresh(self, sizeof(*self)))
+__CPROVER_assigns(__CPROVER_object_whole(self))
+__CPROVER_ensures(self->m_last_active_state_ids[g_k] == g_init_ids16[g_k])                 /*@ob C08,C03.history-memory-starts-at-the-initial-states */
+;
